@@ -29,6 +29,42 @@ def uniqueGo : Nat → List String → List String → List String
 
 def uniqueFieldNames (fs : List String) : List String := uniqueGo 0 [] fs
 
+/-! ### `limit` and the LIMIT node it consults
+
+`limit(num)` first looks for a LIMIT that is already there and merges with it (`Gen.mergeLimit`).  WHERE it looks is a
+decision of the source, regenerated as `Gen.limitLookup`: the outer SELECT of the statement (`ownBlock`), or the first
+LIMIT node met by a breadth-first walk over the whole tree (`wholeTree`) -- the open block's own one if it has one,
+otherwise the LIMIT of the oldest CTE that carries one (`DF.hist`, the ghost list of frozen CTE bodies; in WITH order, which is the
+order `Expression.find` visits them: all CTE bodies sit at the same depth).  `limit11` is the `limit` method with
+that decision; the C01 model's `DF.apply (.limit n)` is the special case `ownBlock` (`limit11_eq_apply`). -/
+
+/-- the LIMIT values sitting in frozen CTE bodies, oldest CTE first -/
+def histLimits (h : List CteBody) : List Nat :=
+  h.filterMap (fun c => match c with | .block b => b.limit | .unpivot _ _ _ _ _ => none)
+
+/-- the LIMIT `limit()` finds before merging, for a given lookup rule -/
+def foundLimitWith (scope : LimitLookup) (d : DF) : Option Nat :=
+  match scope with
+  | .ownBlock => d.blk.limit
+  | .wholeTree => (d.blk.limit.toList ++ histLimits d.hist).head?
+  | .noLookup => none
+
+def bodyLimitWith (scope : LimitLookup) (n : Nat) (d : DF) : DF :=
+  { d with blk := { d.blk with limit := some (mergeLimit n (foundLimitWith scope d)) } }
+
+/-- `df.limit(n)` under a given lookup rule (decorated: `operation(Operation.LIMIT)`) -/
+def DF.limitWith (scope : LimitLookup) (d : DF) (n : Nat) : DF := wrapper tag_limit (bodyLimitWith scope n) d
+
+/-- `df.limit(n)` as the source has it -/
+def DF.limit11 (d : DF) (n : Nat) : DF := d.limitWith limitLookup n
+
+/-- one public method call; `limit` through `limit11`, every other step as in the C01 model -/
+def DF.apply11 (d : DF) : Step → DF
+  | .limit n => d.limit11 n
+  | s => d.apply s
+
+def DF.run11 (d : DF) (steps : List Step) : DF := steps.foldl DF.apply11 d
+
 /-! ### actions -/
 
 /-- `count()`: `df = self._convert_leaf_to_cte(); select("count(*)", append=False)`; none = the engine rejects the statement -/
@@ -38,7 +74,10 @@ def countModel (d : DF) : Option Nat :=
   else if d.blk.limit = none ∧ d.blk.order = [] then some (stWhere d.blk.wher d.src).length else none
 
 /-- `head(n)` / `head()`: `self.limit(headLimit n).collect()` -/
-def headRows (d : DF) (n : Option Nat) : List Row := (d.apply (.limit (headLimit n))).eval.rows
+def headRows (d : DF) (n : Option Nat) : List Row := (d.limit11 (headLimit n)).eval.rows
+
+/-- `limit(n).collect()` -/
+def limitRows (d : DF) (n : Nat) : List Row := (d.limit11 n).eval.rows
 
 def firstRow (d : DF) : Option Row := (headRows d none).head?
 
@@ -46,10 +85,10 @@ def firstRow (d : DF) : Option Row := (headRows d none).head?
 def isEmptyModel (d : DF) : Bool :=
   (firstRow (d.apply (.select [("true", .lit (.bool true))]))).isNone
 
-/-- `show(n)`: wrap, `limit(n)`, collect; header = unique field names of the result's columns -/
+/-- `show(n)`: [wrap,] `limit(n)`, collect; header = unique field names of the result's columns -/
 def showModel (d : DF) (n : Nat) : List String × List Row :=
   let d0 := if showWrapsFirst then d.wrap else d
-  let t := (d0.apply (.limit n)).eval
+  let t := (d0.limit11 n).eval
   (if showHeaderNeedsRow && t.rows.isEmpty then [] else uniqueFieldNames t.cols, t.rows)
 
 /-- H_showNonEmpty: `show` prints the column names only when the result has a row -/
